@@ -3,6 +3,7 @@ package props
 import (
 	"fmt"
 	"sort"
+	"strings"
 	"testing"
 	"time"
 
@@ -78,12 +79,18 @@ func TestC17(t *testing.T) {
 			gotTraced := map[string]bool{}
 			gotGenesis := map[string]bool{}
 			for _, tr := range traces {
-				if gotTraced[tr.Address] {
-					t.Fatalf("%s: address %s traced twice", what, tr.Address)
+				// a record identifies its account by address; either bech32 spelling names the same account
+				ca, err := sdk.AccAddressFromBech32(tr.Address)
+				if err != nil {
+					t.Fatalf("%s: trace with undecodable address %q", what, tr.Address)
 				}
-				gotTraced[tr.Address] = true
+				a := ca.String()
+				if gotTraced[a] {
+					t.Fatalf("%s: address %s traced twice", what, a)
+				}
+				gotTraced[a] = true
 				if tr.IsGenesisOrFromGenesis() {
-					gotGenesis[tr.Address] = true
+					gotGenesis[a] = true
 				}
 			}
 			for a, m := range model {
@@ -149,6 +156,16 @@ func TestC17(t *testing.T) {
 			}
 		}
 		check("initial")
+		// messages may spell a recipient's bech32 address in lower or in upper case (both are valid and
+		// name the same account)
+		upperSeen := false
+		spell := func(t *rapid.T, a sdk.AccAddress) string {
+			if rapid.IntRange(0, 3).Draw(t, "upperCaseRecipient") == 0 {
+				upperSeen = true
+				return strings.ToUpper(a.String())
+			}
+			return a.String()
+		}
 
 		maxDepthG, maxDepthN := 0, 0
 		splitFrom := func(t *rapid.T, pick func() int) {
@@ -163,14 +180,15 @@ func TestC17(t *testing.T) {
 			to := v.NextFresh()
 			locked := v.App.BankKeeper.LockedCoins(v.Ctx, from).AmountOf(Denom)
 			var res MsgResult
+			toStr := spell(t, to)
 			switch rapid.IntRange(0, 2).Draw(t, "kind") {
 			case 0:
 				amt := randBelow(t, "amt", locked).AddRaw(1)
-				res = v.Run(&vestingtypes.MsgSplitVesting{FromAddress: from.String(), ToAddress: to.String(), Amount: sdk.NewCoins(sdk.NewCoin(Denom, amt))})
+				res = v.Run(&vestingtypes.MsgSplitVesting{FromAddress: from.String(), ToAddress: toStr, Amount: sdk.NewCoins(sdk.NewCoin(Denom, amt))})
 			case 1:
-				res = v.Run(&vestingtypes.MsgMoveAvailableVesting{FromAddress: from.String(), ToAddress: to.String()})
+				res = v.Run(&vestingtypes.MsgMoveAvailableVesting{FromAddress: from.String(), ToAddress: toStr})
 			default:
-				res = v.Run(&vestingtypes.MsgMoveAvailableVestingByDenoms{FromAddress: from.String(), ToAddress: to.String(), Denoms: []string{Denom}})
+				res = v.Run(&vestingtypes.MsgMoveAvailableVestingByDenoms{FromAddress: from.String(), ToAddress: toStr, Denoms: []string{Denom}})
 			}
 			note("split/move from=%s (%+v) to=%s locked=%s ok=%v", from, *model[from.String()], to, locked, res.OK())
 			if res.OK() {
@@ -202,7 +220,7 @@ func TestC17(t *testing.T) {
 				p := pools[rapid.IntRange(0, len(pools)-1).Draw(t, "pool")]
 				to := v.NextFresh()
 				amt := sdk.NewInt(int64(rapid.IntRange(0, 500).Draw(t, "amt")))
-				res := v.Run(&vestingtypes.MsgSendToVestingAccount{Owner: p.owner.String(), ToAddress: to.String(), VestingPoolName: p.name, Amount: amt, RestartVesting: rapid.Bool().Draw(t, "restart")})
+				res := v.Run(&vestingtypes.MsgSendToVestingAccount{Owner: p.owner.String(), ToAddress: spell(t, to), VestingPoolName: p.name, Amount: amt, RestartVesting: rapid.Bool().Draw(t, "restart")})
 				note("send pool=%s/%s genesis=%v to=%s amt=%s ok=%v", p.owner, p.name, p.genesis, to, amt, res.OK())
 				if res.OK() {
 					root := "nongenesis"
@@ -215,7 +233,7 @@ func TestC17(t *testing.T) {
 			},
 			"create_direct": func(t *rapid.T) {
 				to := v.NextFresh()
-				res := v.Run(&vestingtypes.MsgCreateVestingAccount{FromAddress: KeyAcc(3).Addr.String(), ToAddress: to.String(),
+				res := v.Run(&vestingtypes.MsgCreateVestingAccount{FromAddress: KeyAcc(3).Addr.String(), ToAddress: spell(t, to),
 					Amount: sdk.NewCoins(sdk.NewInt64Coin(Denom, int64(rapid.IntRange(1, 100000).Draw(t, "amt")))), StartTime: nsTime(v.NowNs).Unix(), EndTime: nsTime(v.NowNs).Unix() + int64(rapid.IntRange(1, 10_000_000).Draw(t, "len"))})
 				note("create_direct to=%s ok=%v", to, res.OK())
 				if res.OK() {
@@ -264,6 +282,9 @@ func TestC17(t *testing.T) {
 		}
 		if maxDepthG >= 4 || maxDepthN >= 4 {
 			cl = append(cl, "chain_depth_ge4")
+		}
+		if upperSeen {
+			cl = append(cl, "recipient_spelled_in_upper_case")
 		}
 		st.Case(nt, map[string]interface{}{"history": hist}, cl...)
 	})
